@@ -152,10 +152,14 @@ package kv
 //@   modifies elems(x)
 
 // GetAll: exactly the stored pairs whose key matches the pattern (as a set; the order is the sort's)
+// (volatile ghost lastGlobN: how many pairs the glob just made returned)
+//@ ghostfield volatile any.lastGlobN Int
 //@ func (*MapStore).GetAll
 //@   params s, pattern
 //@   results ks, err
 //@   requires s != nil
+//@   ghostset world.lastGlobN = len(ks)
+//@   ensures world.lastGlobN == len(ks)
 //@   ensures [C13.glob.sound] err == nil ==> forall i int :: 0 <= i && i < len(ks) ==> pmatch(pattern, ks[i].Key) && exists k string :: has(s.m, k) && s.m[k] == ks[i]
 //@   ensures [C13.glob.complete] err == nil ==> forall k string :: has(s.m, k) && pmatch(pattern, s.m[k].Key) ==> exists i int :: 0 <= i && i < len(ks) && ks[i] == s.m[k]
 //@   modifies nothing
@@ -171,14 +175,24 @@ package kv
 //@   ensures forall j int :: 0 <= j && j < len(x) ==> exists i int :: 0 <= i && i < len(x) && x[i] == old(x[j])
 //@   modifies elems(x)
 // GetAllValues: exactly the values of the stored pairs whose key matches the pattern (as a set)
+// Compact keeps one of each run of equal neighbours: shorter or equal, same set (an honest contract
+// for a call the correct code does not make)
+//@ func slices.Compact[[]string,string]
+//@   assumed
+//@   params x
+//@   ensures len(result) <= len(x) && forall i int :: 0 <= i && i < len(result) ==> exists j int :: 0 <= j && j < len(x) && result[i] == old(x[j])
+//@   ensures forall j int :: 0 <= j && j < len(x) ==> exists i int :: 0 <= i && i < len(result) && result[i] == old(x[j])
+//@   modifies elems(x)
 //@ func (*MapStore).GetAllValues
 //@   params s, pattern
 //@   results vs, err
 //@   requires s != nil
 //@   ensures [C13.globvalues.sound] err == nil ==> forall i int :: 0 <= i && i < len(vs) ==> exists k string :: has(s.m, k) && pmatch(pattern, s.m[k].Key) && s.m[k].Value == vs[i]
+//@   ensures [C13.globvalues.count] err == nil ==> len(vs) == world.lastGlobN      // one value per matching pair: equal values of different keys are not merged
 //@   ensures [C13.globvalues.complete] err == nil ==> forall k string :: has(s.m, k) && pmatch(pattern, s.m[k].Key) ==> exists i int :: 0 <= i && i < len(vs) && vs[i] == s.m[k].Value
 //@   modifies nothing
 //@   loop 0 invariant fresh(vs) && -1 <= rangeindex && rangeindex < len(ks) && len(vs) == rangeindex + 1
+//@   loop 0 invariant world.lastGlobN == len(ks)
 //@   loop 0 invariant forall j int :: 0 <= j && j <= rangeindex ==> vs[j] == ks[j].Value
 //@   loop 0 exit len(vs) == len(ks)
 //@   loop 0 exit forall j int :: 0 <= j && j < len(ks) ==> vs[j] == ks[j].Value
